@@ -37,6 +37,7 @@ import (
 	"github.com/cespare/xxhash/v2"
 	"github.com/miekg/dns"
 	"github.com/semihalev/sdns/config"
+	"github.com/semihalev/sdns/internal/dnsname"
 	"github.com/semihalev/sdns/internal/mock"
 	"github.com/semihalev/sdns/middleware"
 	ednsmw "github.com/semihalev/sdns/middleware/edns"
@@ -195,6 +196,19 @@ func vC03Universe(r *rand.Rand) []string {
 		"x" + l1 + "." + tld, //   "
 		l1 + "." + "x" + tld, // sibling zone whose spelling ends like the zone
 		".",
+	}
+	// "false parents": the text behind an escaped dot (`a\.b.test.` -> `b.test.`, `x.z\.z.` -> `z.`): string
+	// suffixes a careless label walk would visit although they are no ancestors of the name (a dot behind an
+	// escaped backslash, `\\.`, is a real label boundary and adds nothing)
+	for _, n := range append([]string(nil), names...) {
+		for i := 0; i+1 < len(n); i++ {
+			if n[i] == '\\' && (n[i+1] == '.' || n[i+1] == '\\') && i+2 < len(n) {
+				if n[i+1] == '.' {
+					names = append(names, n[i+2:])
+				}
+				i++
+			}
+		}
 	}
 	// keep only names the library can pack and prints back unchanged (canonical presentation)
 	var out []string
@@ -754,8 +768,32 @@ func (h *vC03Hist) opBackoff() {
 	}
 }
 
+// names of the universe that are a string suffix of another name without being one of its ancestors
+func (h *vC03Hist) falseParents() []string {
+	var out []string
+	for _, z := range h.names {
+		if z == "." {
+			continue
+		}
+		for _, n := range h.names {
+			if len(n) > len(z) && strings.HasSuffix(vC03Lower(n), vC03Lower(z)) && !dns.IsSubDomain(z, n) {
+				out = append(out, z)
+				break
+			}
+		}
+	}
+	return out
+}
+
 func (h *vC03Hist) opFailZ() {
 	q := h.randQ()
+	if fp := h.falseParents(); len(fp) > 0 && h.r.Intn(3) == 0 {
+		q.name = vC03MixCase(h.r, fp[h.r.Intn(len(fp))])
+	}
+	h.failZone(q)
+}
+
+func (h *vC03Hist) failZone(q vC03Q) {
 	if q.name == "" {
 		return
 	}
@@ -2440,6 +2478,8 @@ func vC03RunScript(sc vC03CScript) map[string]any {
 			h.failAt(st.Q.spec())
 		case "failwire":
 			h.failWireAt(st.Q.spec())
+		case "failzone":
+			h.failZone(st.Q.spec().q)
 		case "lookup":
 			h.lookupAt(st.Q.spec())
 		case "get":
@@ -2528,6 +2568,114 @@ func vC03Corpus(t *testing.T, tr *vC03Trace) {
 	}
 }
 
+// ---- the ancestor walks on their own: walkFailureZones (decoded failure route: Lookup, RetryKey, ResetMatching),
+// walkWireSuffixes (wire failure / cut routes) and dnsname.Suffixes (decoded cut route) on one name given as wire
+// labels and as the text the decoder prints for them; labels over all octet values with the octets a text walk
+// can trip over (dot, backslash, digits) over-represented.  stop > 0: the callback refuses the stop-th zone.
+
+func vC03ZoneLabel(r *rand.Rand) []byte {
+	n := 1 + r.Intn(4)
+	l := make([]byte, n)
+	for i := range l {
+		switch r.Intn(8) {
+		case 0, 1:
+			l[i] = '.'
+		case 2:
+			l[i] = '\\'
+		case 3:
+			l[i] = byte("0469"[r.Intn(4)])
+		case 4:
+			l[i] = byte("abzABZ"[r.Intn(6)])
+		case 5:
+			l[i] = []byte{0, 46, 92, 146, 192, 255, ' ', '@', 127, 45, 47, 91, 93}[r.Intn(13)]
+		default:
+			l[i] = byte(r.Intn(256))
+		}
+	}
+	return l
+}
+
+func vC03List(items [][]byte) string {
+	parts := make([]string, len(items))
+	for i, it := range items {
+		parts[i] = vC03Bytes(it)
+	}
+	return "[" + strings.Join(parts, "; ") + "]"
+}
+
+func vC03ZoneWalkCase(r *rand.Rand) map[string]any {
+	var w []byte
+	nl := r.Intn(5)
+	for i := 0; i < nl; i++ {
+		l := vC03ZoneLabel(r)
+		w = append(w, byte(len(l)))
+		w = append(w, l...)
+	}
+	w = append(w, 0)
+	kind := "zones"
+	switch r.Intn(12) {
+	case 0: // malformed wires: the wire walk's own refusals
+		w = w[:len(w)-1]
+		kind = "zones-noroot"
+	case 1:
+		w = append([]byte{byte(64 + r.Intn(192))}, w...)
+		kind = "zones-labeltype"
+	}
+	pres, presOK := "", false
+	if s, off, err := dns.UnpackDomainName(w, 0); err == nil && off == len(w) {
+		if back := vC03WireOf(s); back != nil && string(back) == string(w) {
+			pres, presOK = s, true
+		}
+	}
+	stop := 0
+	if r.Intn(3) == 0 {
+		stop = 1 + r.Intn(4)
+	}
+	goFail := ""
+	var zp, zw, sf [][]byte
+	calls := 0
+	walkWireSuffixes(w, func(zone []byte) bool {
+		zw = append(zw, append([]byte(nil), zone...))
+		calls++
+		return calls != stop
+	})
+	if presOK {
+		calls = 0
+		walkFailureZones(pres, func(zone string) bool {
+			zp = append(zp, []byte(zone))
+			calls++
+			return calls != stop
+		})
+		for off := range dnsname.Suffixes(pres) {
+			sf = append(sf, []byte(pres[off:]))
+		}
+		// Go-side oracle: the two walks name the same zones — the i-th text zone is what the decoder prints for
+		// the i-th wire suffix, lower-cased
+		if len(zp) != len(zw) {
+			goFail = fmt.Sprintf("walkFailureZones(%q) visits %d zones, walkWireSuffixes(%v) %d", pres, len(zp), w, len(zw))
+		} else {
+			for i := range zw {
+				s, _, err := dns.UnpackDomainName(zw[i], 0)
+				if err != nil || vC03Lower(s) != string(zp[i]) {
+					goFail = fmt.Sprintf("zone %d of %q: the text walk visits %q, the wire walk %q", i, pres, zp[i], s)
+					break
+				}
+			}
+		}
+	}
+	presTerm := "None"
+	if presOK {
+		presTerm = "(Some " + vC03Bytes([]byte(pres)) + ")"
+	}
+	return map[string]any{
+		"k":          kind,
+		"coq":        fmt.Sprintf("CaseZones %s %s %d %s %s %s", vC03Bytes(w), presTerm, stop, vC03List(zp), vC03List(zw), vC03List(sf)),
+		"go_fail":    goFail,
+		"nontrivial": presOK && len(zp) > 1,
+		"desc":       map[string]any{"wire": fmt.Sprintf("%v", w), "pres": pres, "stop": stop, "zones": fmt.Sprintf("%q", zp), "suffixes": fmt.Sprintf("%q", sf)},
+	}
+}
+
 func TestVerifC03Store(t *testing.T) {
 	tr := vC03Open(t)
 	defer tr.f.Close()
@@ -2542,6 +2690,9 @@ func TestVerifC03Store(t *testing.T) {
 		tr.emit(vC03History(r))
 		if i%4 == 0 {
 			tr.emit(vC03HashCase(r))
+		}
+		if i%5 == 0 {
+			tr.emit(vC03ZoneWalkCase(r))
 		}
 	}
 }
